@@ -114,7 +114,7 @@ type CallExp struct {
 func (op *Op) Expect(serial uint32, args Vals, msg []byte) CallExp {
 	l := op.ReplyLayout()
 	exps := map[string]Exp{}
-	anyBad := false   // some field (visible or not) is out of domain
+	anyBad := false // some field (visible or not) is out of domain
 	classes := ""
 	for _, f := range l.Fields {
 		e := DecodeField(msg, f)
